@@ -7,6 +7,7 @@ NA = {
  "C03": "state machine over Mutex<HashMap<PaymentId,..>> driven by events, monitor replays and restarts; no bounded integer kernel carries truthfulness; out of reach for Kani (hash maps, secp256k1) and for the MIR encoder (DESIGN.md §5 C03)",
  "C09": "ordering constraint between ChannelManager and ChainMonitor event streams (locks, hash maps, background events); no function-level input/output relation to encode (DESIGN.md §5 C09)",
  "C10": "whole-program crash/restart property: deserialisation of manager+monitors followed by arbitrary later behaviour; not encodable within reach (DESIGN.md §5 C10)",
+ "C15": "PeerChannelEncryptor interleaves ChaCha20-Poly1305 calls on Vec<u8> buffers with its nonce/rotation counters; with the AEAD abstracted only a two-line counter increment remains, which does not carry the property; handshake, tamper rejection and PeerManager framing are cryptographic or schedule-level (DESIGN.md §5 C15)",
  "C19": "filesystem calls, rename atomicity, threads and a real ChannelMonitor (secp256k1); no bounded kernel carries the property (DESIGN.md §5 C19)",
  "C20": "async fns over boxed dyn Future block sources, HashMap header cache, proof-of-work validation; not reachable by Kani or the MIR encoder (DESIGN.md §5 C20)",
 }
@@ -18,29 +19,32 @@ def claim(pid, engine, technique, text, note):
     CLAIMED[pid] = (engine, technique, text, note)
 
 M = "engine M: symbolic execution of the functions' MIR (rustc -Zunpretty=mir of /repo's working tree) into integer SMT, decided by z3 for all values inside the stated bounds; counterexamples replayed natively"
-claim("C01", "M", "SMT bounded model checking of MIR (z3)",
+claim("C01", "M", "SMT bounded model checking of MIR (z3 + cvc5 portfolio)",
       "Kernel level: commitment fee/dust/anchor arithmetic, BOLT-3 reference equality of SpecTxBuilder::build_commitment_transaction's outputs, value conservation, prediction (get_next_commitment_stats) == construction; all amounts/feerates/channel types, HTLC lists up to N (quick 2, thorough 4). Interleavings, signatures and scripts are outside the claim.",
       "trusted: rustc MIR dump, engine_m executor + std models (validated against the native build on random/boundary vectors each run), z3; ChannelTypeFeatures modelled by a 3-row truth table read back from the native build")
-claim("C02", "M", "SMT bounded model checking of MIR (z3)",
+claim("C02", "M", "SMT bounded model checking of MIR (z3 + cvc5 portfolio)",
       "Kernel level: forward admission arithmetic (amount + advertised fee, CLTV delta) for all u64/u32/u16 inputs incl. overflow paths, and the onion CLTV admission check. Claim/fail ordering, monitor durability and restart are outside the claim.",
       "trusted: rustc MIR dump, engine_m, z3; heights < 2^31")
-claim("C08", "M", "SMT bounded model checking of MIR (z3)",
+claim("C08", "M", "SMT bounded model checking of MIR (z3 + cvc5 portfolio)",
       "Kernel level: every per-HTLC CLTV boundary inequality (forward admission, claim deadline <=> automatic fail-back) for all heights < 2^31 and all expiries, and the safety margins they compose to.",
       "trusted: rustc MIR dump, engine_m, z3; should_broadcast_holder_commitment_txn and the end-to-end race are outside the claim")
-claim("C16", "M", "SMT bounded model checking of MIR (z3)",
+claim("C16", "M", "SMT bounded model checking of MIR (z3 + cvc5 portfolio)",
       "Kernel level: routing fee arithmetic (compute_fees, saturating variant), cross-module agreement with the forwarding node's fee check, max_htlc_from_capacity; all u64/u32/u8 inputs. The path search, liquidity accounting and scoring are outside the claim.",
       "trusted: rustc MIR dump, engine_m, z3")
-claim("C07", "M", "SMT bounded model checking of MIR (z3)",
+claim("C07", "M", "SMT bounded model checking of MIR (z3 + cvc5 portfolio)",
       "Kernel level: claim-package fee kernels (first-attempt fee, RBF bumping incl. BIP-125 rules 3/4 and monotone feerates, anchor-claim feerate strategy, package output value, package locktime) for all amounts/estimates over a stated finite set of transaction weights and <=2 (quick) / <=3 (thorough) inputs. Which outputs are claimed, scripts and the sweeper are outside the claim.",
       "trusted: rustc MIR dump, engine_m, z3; fee estimator = arbitrary u32 (<= u32::MAX/5 for the anchor strategy); previous feerate <= inputs*1000/weight")
 claim("C11", "M+K", "SMT bounded model checking of MIR (z3); Kani/CBMC harnesses for the BlockLocator ring",
       "Kernel level: anti-reorg confirmation thresholds of both on-chain event queues (no irreversible conclusion before ANTI_REORG_DELAY confirmations nor before a CSV output matures), heights 1..2^31, all CSV delays; BlockLocator ring operations (Kani) where registered. Equivalence of block-delivery styles is history-quantified and outside the claim.",
       "trusted: rustc MIR dump, engine_m, z3, Kani/CBMC")
-claim("C17", "M", "SMT bounded model checking of MIR (z3)",
+claim("C17", "M", "SMT bounded model checking of MIR (z3 + cvc5 portfolio)",
       "Kernel level (narrow): the channel_update acceptance closures of NetworkGraph::update_channel_internal - strictly newer timestamp per direction, htlc_maximum <= known capacity - for all timestamps/flags/amounts; counterexamples are replayed through the public NetworkGraph API. Signatures, announcements, pruning and order-independence over message sets are outside the claim.",
       "trusted: rustc MIR dump, engine_m, z3")
+claim("C06", "M", "SMT bounded model checking of MIR (z3 + cvc5 portfolio)",
+      "Kernel level (narrow): the fee and scheduling kernels that justice claims run on - first-attempt fee, RBF bumping (monotone, BIP-125 rules 3/4), package output value, merge, re-bump timer tied to the counterparty CSV height - and the classification of revoked outputs as malleable packages. Detection of revoked commitments, secret derivation, package construction and witness validity are outside the claim.",
+      "trusted: rustc MIR dump, engine_m, z3/cvc5; shares its obligations with C07 / C08.d (same code path)")
 K = "Kani 0.68 / CBMC bounded model checking of the compiled code"
-claim("C04", "M", "SMT bounded model checking of MIR (z3)",
+claim("C04", "M", "SMT bounded model checking of MIR (z3 + cvc5 portfolio)",
       "Kernel level: payment-secret metadata packing/unpacking (construct_info_bytes <-> verify) and the amount / expiry / min-final-CLTV acceptance thresholds for all u64/u32/u16 inputs and all five methods, with the cryptography abstracted (decrypt = packed bytes, HMAC/preimage checks = arbitrary booleans); user-hash boundary cases replay through the real create_from_hash + verify. Unforgeability, MPP accumulation and claiming are outside the claim.",
       "trusted: rustc MIR dump, engine_m, z3; crypto abstraction listed in the evidence")
 claim("C05", "K", K,
